@@ -200,6 +200,14 @@ func (c *FragConn) Close() error {
 	return nil
 }
 
+// Unread returns the number of bytes this end has written that the other end
+// has not read yet (added for C15's flood fault; read-only).
+func (c *FragConn) Unread() int {
+	c.wr.mu.Lock()
+	defer c.wr.mu.Unlock()
+	return len(c.wr.buf)
+}
+
 func (c *FragConn) LocalAddr() net.Addr  { return addr("mem-" + c.name) }
 func (c *FragConn) RemoteAddr() net.Addr { return addr("mem-peer-of-" + c.name) }
 func (c *FragConn) SetDeadline(t time.Time) error {
